@@ -28,7 +28,8 @@ LEVEL = "exploration"
 KNOBS = {"p_metric": 0.9, "p_log": 0.9, "p_decisions": 0.5, "p_handler": 0.5, "p_abort": 0.35, "p_abort_if": 0.7,
          "p_budget": 0.3, "p_generous": 0.5, "p_ok": 0.2, "p_retryable": 0.8, "p_ra": 0.3}
 RULE = ("seeded swarm with all three sinks attached (on_metric, on_log, timeline True/supplied), operation set/unset, "
-        "policy-level runs with a real breaker so transitions and rejections occur; every stop reason, abort point and "
+        "policy-level runs with a real breaker so transitions and rejections occur (sequences, and overlapping async calls so "
+        "that rejections happen while a probe is in flight), slow sleep handlers; every stop reason, abort point and "
         "handler decision; distinct by trace shape; non-trivial = >=1 failed attempt or breaker event")
 COMPONENTS = common.REAL_COMPONENTS
 ASSUMPTIONS = ["runs ending abnormally (cancellation, raising callbacks, nested errors) are outside the statement and not generated",
